@@ -42,32 +42,79 @@ theorem chain_clauses {d : Disk} {c : List Block} (ci : ChainInv d c) :
     have := ci.linked.le_head x this.1
     omega
 
-/-- The store right after genesis creation satisfies the invariant. -/
-theorem inv_genesis (T : Nat → Option Block) (g : Block) (h0 : g.height = 0) (hT : T g.hash = some g) :
-    Inv T (genesisState g).disk (genesisState g).mem [g] := by
-  refine ⟨⟨h0, rfl, ?_, ?_, ?_, ?_, ?_, ?_, ?_, rfl, rfl⟩, rfl, ?_, ?_, ?_⟩
-  · intro x hx; simp at hx; subst hx; simp [genesisState]
-  · intro x hx; simp at hx; subst hx; simp [genesisState]
-  · intro h x hx
-    simp only [genesisState] at hx
-    rcases upd_eq_some hx with ⟨e, hv⟩ | ⟨_, hm⟩
-    · simp at hv; subst hv; exact ⟨List.mem_cons_self .., e.symm⟩
-    · cases hm
-  · intro n x hx
-    simp only [genesisState] at hx
-    rcases upd_eq_some hx with ⟨e, hv⟩ | ⟨_, hm⟩
-    · simp at hv; subst hv; exact ⟨List.mem_cons_self .., e.symm⟩
-    · cases hm
-  · intro x hx; simp at hx; subst hx; simp [genesisState]
-  · intro n hn
-    simp only [genesisState] at hn
-    rcases updB_eq_true hn with ⟨e, _⟩ | ⟨_, hm⟩
-    · exact ⟨g, List.mem_cons_self .., e.symm⟩
-    · cases hm
-  · intro x hx; simp at hx; subst hx; simp [genesisState]
+/-- The store right after genesis creation satisfies the invariant (the genesis block carries no transactions). -/
+theorem inv_genesis (T : Nat → Option Block) (g : Block) (h0 : g.height = 0) (htx : g.txs = [])
+    (hT : T g.hash = some g) : Inv T (genesisState g).disk (genesisState g).mem [g] := by
+  have ci : ChainInv (genesisState g).disk [g] := {
+    linked := h0
+    cur := rfl
+    blocks_mem := by intro x hx; simp at hx; subst hx; simp [genesisState]
+    heights_mem := by intro x hx; simp at hx; subst hx; simp [genesisState]
+    blocks_only := by
+      intro h x hx
+      simp only [genesisState] at hx
+      rcases upd_eq_some hx with ⟨e, hv⟩ | ⟨_, hm⟩
+      · simp at hv; subst hv; exact ⟨List.mem_cons_self .., e.symm⟩
+      · cases hm
+    heights_only := by
+      intro n x hx
+      simp only [genesisState] at hx
+      rcases upd_eq_some hx with ⟨e, hv⟩ | ⟨_, hm⟩
+      · simp at hv; subst hv; exact ⟨List.mem_cons_self .., e.symm⟩
+      · cases hm
+    verify_mem := by intro x hx; simp at hx; subst hx; simp [genesisState]
+    verify_only := by
+      intro n hn
+      simp only [genesisState] at hn
+      rcases updB_eq_true hn with ⟨e, _⟩ | ⟨_, hm⟩
+      · exact ⟨g, List.mem_cons_self .., e.symm⟩
+      · cases hm
+    roots := by intro x hx; simp at hx; subst hx; simp [genesisState]
+    noAdd := rfl
+    noRemove := rfl
+    exec_mem := by intro x hx t ht; simp at hx; subst hx; rw [htx] at ht; cases ht
+    exec_only := by intro t h hh; cases hh
+    txdisj := List.pairwise_singleton _ _ }
+  refine ⟨ci, rfl, ?_, ?_, ?_⟩
   · intro n z hz; cases hz
   · intro k f hf; cases hf
   · intro z hz; simp at hz; subst hz; exact hT
+
+/-- The pool clause, spelled out: at every state satisfying the invariant a transaction is marked executed
+    exactly when a block of the head's chain contains it, and it is marked with that block. -/
+theorem pool_exact {d : Disk} {c : List Block} (ci : ChainInv d c) (t h : Nat) :
+    d.executed t = some h ↔ ∃ x ∈ c, x.hash = h ∧ t ∈ x.txs := by
+  constructor
+  · exact ci.exec_only t h
+  · rintro ⟨x, hx, rfl, ht⟩
+    exact ci.exec_mem x hx t ht
+
+/-! ## the in-memory caches -/
+
+/-- **caches_agree.** Under the invariant every cache entry agrees with the store or is absent: a header in
+    the topBlocks cache is the header the height index holds at that height (and its block is in the hash
+    index); an orphan parked in futureBlocks is parked under its own parent hash and is a tree block. The
+    invariant is preserved by every delivery, reorg, crash + restart (`inv_add`, `inv_crash`), so this holds
+    at every quiescent point. -/
+theorem caches_agree {T : Nat → Option Block} {d : Disk} {m : Mem} {c : List Block} (inv : Inv T d m c) :
+    (∀ n z, m.top n = some z → d.heights n = some z ∧ d.blocks z.hash = some z ∧ z ∈ c) ∧
+    (∀ k f, m.future k = some f → f.pre = k ∧ T f.hash = some f) := by
+  refine ⟨fun n z hz => ?_, inv.fut⟩
+  have h := inv.cache n z hz
+  have hc := (inv.chain.heights_only n z h).1
+  exact ⟨h, inv.chain.blocks_mem z hc, hc⟩
+
+/-- **cache_transparent.** The cache-reading query `QueryBlockHeaderByHeight(h, true)` (hence `GetBlockHash`,
+    `QueryBlock`) returns exactly what the height index holds, at every height — also at heights the current
+    chain skips — whatever subset of the index the topBlocks LRU currently keeps (so LRU eviction of that
+    cache is not observable). -/
+theorem cache_transparent {T : Nat → Option Block} (s : St) (c : List Block) (inv : Inv T s.disk s.mem c) (h : Nat) :
+    s.lookupHeight h = s.disk.heights h := by
+  unfold St.lookupHeight
+  split
+  · rename_i x hx
+    exact (inv.cache h x hx).symm
+  · rfl
 
 /-! ## absent crashes -/
 
@@ -120,6 +167,18 @@ theorem inv_crash {T : Nat → Option Block} (vt : ValidTree T) (fuel : Nat) (s 
   have h := restart_spec (T := T) (s := s'.arm none) rfl hr hT'
   have hsafe := safe_restart (s'.arm none) (arm_safe s')
   exact ⟨c', Out.of_alive h.1 hsafe.1, h.2 hsafe.1⟩
+
+/-- **inv_crash, pool clause.** After a death in front of ANY write of a delivery — including the tx pool's own
+    batch write and each of its deletes, in their real position between the intent marks — and a restart, a
+    transaction is marked executed exactly when a block of the recovered head's chain contains it. -/
+theorem inv_crash_pool {T : Nat → Option Block} (vt : ValidTree T) (fuel : Nat) (s : St) (b : Block) (c : List Block)
+    (inv : Inv T s.disk s.mem c) (hT : T b.hash = some b) (k : Nat) :
+    let s' := (addBlock fuel (s.arm (some k)) b).1
+    ∃ c', Inv T (restart (s'.arm none)).1.disk (restart (s'.arm none)).1.mem c' ∧
+      ∀ t h, (restart (s'.arm none)).1.disk.executed t = some h ↔ ∃ x ∈ c', x.hash = h ∧ t ∈ x.txs := by
+  intro s'
+  obtain ⟨c', inv', _⟩ := inv_crash vt fuel s b c inv hT k
+  exact ⟨c', inv', pool_exact inv'.chain⟩
 
 /-- **Deaths during the repair itself.** From any disk a crashed delivery can leave behind, any number
     of restarts that each die in front of an arbitrary write of the start-up repair, followed by one
@@ -185,13 +244,13 @@ theorem head_after_crash_remove {T : Nat → Option Block} (s : St) (x : Block) 
     of the add mark): the restarted node's chain is `c` (old head) or `b :: c` (new head). -/
 theorem head_after_crash_insert {T : Nat → Option Block} (s : St) (b y : Block) (c : List Block)
     (inv : Inv T s.disk s.mem c) (hp : b.pre = y.hash) (hy : c.head? = some y) (hh : y.height < b.height)
-    (hn : s.disk.blocks b.hash = none) (hT : T b.hash = some b) (k : Nat) :
+    (hn : s.disk.blocks b.hash = none) (hT : T b.hash = some b) (hfresh : ∀ z ∈ c, ∀ t ∈ b.txs, t ∉ z.txs) (k : Nat) :
     let s' := insertB (insertA (s.arm (some k)) b) b
     (Inv T (restart (s'.arm none)).1.disk (restart (s'.arm none)).1.mem c ∨
      Inv T (restart (s'.arm none)).1.disk (restart (s'.arm none)).1.mem (b :: c)) ∧
     (restart (s'.arm none)).2 = .ok := by
   intro s'
-  have hq := insertAB_spec (T := T) (s := s.arm (some k)) rfl inv hp hy hh hn hT
+  have hq := insertAB_spec (T := T) (s := s.arm (some k)) rfl inv hp hy hh hn hT hfresh
   have hsafe := safe_restart (s'.arm none) (arm_safe s')
   rcases hq with ⟨_, p⟩ | ⟨_, r⟩
   · have h := restart_spec (T := T) (s := s'.arm none) rfl (Or.inl p.1.chain) p.1.fromT
@@ -237,7 +296,8 @@ theorem head_weight_monotone (T : Nat → Option Block) : FullStatementHeadWeigh
     · exact inv.fut k f hm
   · split
     · exact ⟨c, inv, WeightGE.refl c⟩
-    · exact (addCore_weight vt fuel s b c hs inv hT).2
+    · obtain ⟨c', h1, h2, _⟩ := (addCore_weight vt fuel s b c hs inv hT).2
+      exact ⟨c', h1, h2⟩
 
 /-- The plain reading: the head's cumulative QN never decreases. -/
 theorem head_qn_monotone {T : Nat → Option Block} (vt : ValidTree T) (fuel : Nat) (s : St) (b : Block) (c : List Block)
@@ -260,6 +320,32 @@ theorem head_qn_monotone {T : Nat → Option Block} (vt : ValidTree T) (fuel : N
 
 /-! ## transactions of removed and added blocks -/
 
+/-- **reorg_pool, end to end.** After a crash-free `AddBlockOnChain` of any block of a valid tree — whatever
+    happens: nothing, an extension with a cascade of parked orphans, or a reorg that removes any number of
+    blocks and re-enters — the store holds a chain `c'` such that (new chain) a transaction is marked executed
+    exactly when a block of `c'` contains it, with that block's hash; and (removed blocks) every transaction of
+    every block of the old chain `c` that is no longer on `c'` is pending again, unless a block of `c'`
+    contains it (then it is executed there). -/
+theorem reorg_pool {T : Nat → Option Block} (vt : ValidTree T) (fuel : Nat) (s : St) (b : Block) (c : List Block)
+    (hs : Safe s) (inv : Inv T s.disk s.mem c) (hT : T b.hash = some b) :
+    ∃ c', Inv T (addBlock (fuel + 2) s b).1.disk (addBlock (fuel + 2) s b).1.mem c' ∧
+      (∀ t h, (addBlock (fuel + 2) s b).1.disk.executed t = some h ↔ ∃ x ∈ c', x.hash = h ∧ t ∈ x.txs) ∧
+      (∀ x ∈ c, x ∉ c' → ∀ t ∈ x.txs, t ∈ (addBlock (fuel + 2) s b).1.mem.pending ∨ ∃ y ∈ c', t ∈ y.txs) := by
+  unfold addBlock
+  split
+  · have inv' : Inv T s.disk (s.setMem { s.mem with future := upd s.mem.future b.pre (some b) }).mem c := by
+      refine ⟨inv.chain, inv.latest, inv.cache, ?_, inv.fromT⟩
+      intro k f hk
+      have hk' : upd s.mem.future b.pre (some b) k = some f := hk
+      rcases upd_eq_some hk' with ⟨e, hv⟩ | ⟨_, hm⟩
+      · simp at hv; subst hv; exact ⟨e.symm, hT⟩
+      · exact inv.fut k f hm
+    exact ⟨c, inv', pool_exact inv.chain, fun x hx hn => absurd hx hn⟩
+  · split
+    · exact ⟨c, inv, pool_exact inv.chain, fun x hx hn => absurd hx hn⟩
+    · obtain ⟨c', h1, _, h3⟩ := (addCore_weight vt fuel s b c hs inv hT).2
+      exact ⟨c', h1, pool_exact h1.chain, h3⟩
+
 /-- **reorg_pool, removal half.** When a live node removes the head `x` (one step of a reorg), every
     transaction of `x` is un-marked in the executed store and is pending again; nothing that was
     pending is lost. -/
@@ -274,10 +360,10 @@ theorem reorg_pool_remove {T : Nat → Option Block} (s : St) (x : Block) (c : L
     executed in `b` and is no longer pending. -/
 theorem reorg_pool_insert {T : Nat → Option Block} (s : St) (b y : Block) (c : List Block) (hs : Safe s)
     (inv : Inv T s.disk s.mem c) (hp : b.pre = y.hash) (hy : c.head? = some y) (hh : y.height < b.height)
-    (hn : s.disk.blocks b.hash = none) (hT : T b.hash = some b) :
+    (hn : s.disk.blocks b.hash = none) (hT : T b.hash = some b) (hfresh : ∀ z ∈ c, ∀ t ∈ b.txs, t ∉ z.txs) :
     ∀ t ∈ b.txs, (insertB (insertA s b) b).disk.executed t = some b.hash ∧ t ∉ (insertB (insertA s b) b).mem.pending := by
   have hsafe : Safe (insertB (insertA s b) b) := safe_insertB b _ (safe_writes _ s hs)
-  exact (Out.of_alive (insertAB_spec hs.1 inv hp hy hh hn hT) hsafe.1).2.1
+  exact (Out.of_alive (insertAB_spec hs.1 inv hp hy hh hn hT hfresh) hsafe.1).2.1
 
 
 /-! ## non-vacuity: a concrete tree and concrete states satisfy the hypotheses -/
@@ -287,35 +373,50 @@ def exB1 : Block := { hash := 2, pre := 1, height := 1, totalQN := 1, pv := 5, t
 def exB2 : Block := { hash := 3, pre := 1, height := 2, totalQN := 2, pv := 4, txs := [8], valid := true }
 def exT : Nat → Option Block := fun h => if h = 1 then some exG else if h = 2 then some exB1 else if h = 3 then some exB2 else none
 
+theorem exT_anc {a b : Block} (h : IsAnc exT a b) : a = exG := by
+  induction h with
+  | parent hb hp =>
+    unfold exT at hb
+    split at hb
+    · simp at hb; subst hb; simp [exT, exG] at hp
+    · split at hb
+      · simp at hb; subst hb; simp [exT, exB1] at hp; exact hp.symm
+      · split at hb
+        · simp at hb; subst hb; simp [exT, exB2] at hp; exact hp.symm
+        · cases hb
+  | step _ _ _ ih => exact ih
+
 theorem exT_valid : ValidTree exT := by
   constructor
-  intro b q hb hq
-  unfold exT at hb
-  split at hb
-  · simp at hb; subst hb; simp [exT, exG] at hq
-  · split at hb
-    · simp at hb; subst hb
-      simp [exT, exB1] at hq; subst hq; simp [exG, exB1]
+  · intro b q hb hq
+    unfold exT at hb
+    split at hb
+    · simp at hb; subst hb; simp [exT, exG] at hq
     · split at hb
       · simp at hb; subst hb
-        simp [exT, exB2] at hq; subst hq; simp [exG, exB2]
-      · cases hb
+        simp [exT, exB1] at hq; subst hq; simp [exG, exB1]
+      · split at hb
+        · simp at hb; subst hb
+          simp [exT, exB2] at hq; subst hq; simp [exG, exB2]
+        · cases hb
+  · intro a b h t _
+    rw [exT_anc h]; simp [exG]
 
 /-- the genesis store is a state to which `inv_add`, `inv_crash`, `inv_restart` apply -/
 example : Inv exT (genesisState exG).disk (genesisState exG).mem [exG] ∧ Safe (genesisState exG) :=
-  ⟨inv_genesis exT exG rfl rfl, rfl, rfl⟩
+  ⟨inv_genesis exT exG rfl rfl rfl, rfl, rfl⟩
 
 /-- … and so is the store after delivering an extension and then a heavier sibling (a reorg) -/
 example : ∃ c, Inv exT ([exB1, exB2].foldl (fun s b => (addBlock 4 s b).1) (genesisState exG)).disk
     ([exB1, exB2].foldl (fun s b => (addBlock 4 s b).1) (genesisState exG)).mem c :=
-  inv_add_all exT_valid 4 [exB1, exB2] (genesisState exG) [exG] ⟨rfl, rfl⟩ (inv_genesis exT exG rfl rfl)
+  inv_add_all exT_valid 4 [exB1, exB2] (genesisState exG) [exG] ⟨rfl, rfl⟩ (inv_genesis exT exG rfl rfl rfl)
     (by intro b hb; simp at hb; rcases hb with rfl | rfl <;> rfl)
 
 /-- a two-block chain, as `head_after_crash_remove` and `reorg_pool_remove` need it -/
 example : Inv exT (insertB (insertA (genesisState exG) exB1) exB1).disk (insertB (insertA (genesisState exG) exB1) exB1).mem
     [exB1, exG] :=
-  (Out.of_alive (insertAB_spec (T := exT) (s := genesisState exG) (y := exG) rfl (inv_genesis exT exG rfl rfl)
-    rfl rfl (by decide) rfl rfl) rfl).1
+  (Out.of_alive (insertAB_spec (T := exT) (s := genesisState exG) (y := exG) rfl (inv_genesis exT exG rfl rfl rfl)
+    rfl rfl (by decide) rfl rfl (by intro z hz t _; simp at hz; subst hz; simp [exG])) rfl).1
 
 /-- the guard is neither always true nor always false -/
 example : Guard (genesisState exG) exB1 := Or.inl rfl
@@ -329,7 +430,7 @@ example : ¬ Guard (genesisState exG) { exB1 with pre := 99 } := by
 /-- `head_weight_monotone` applies to the genesis store and a block of the example tree -/
 example : ∃ c', Inv exT (addBlock 2 (genesisState exG) exB1).1.disk (addBlock 2 (genesisState exG) exB1).1.mem c' ∧
     WeightGE [exG] c' :=
-  head_weight_monotone exT 0 (genesisState exG) exB1 [exG] exT_valid ⟨rfl, rfl⟩ (inv_genesis exT exG rfl rfl) rfl
+  head_weight_monotone exT 0 (genesisState exG) exB1 [exG] exT_valid ⟨rfl, rfl⟩ (inv_genesis exT exG rfl rfl rfl) rfl
 
 /-! The weight order discriminates on the tie-break at the fork point (the class of a wrong local block
     being consulted): local chain `A – L1(pv 900) – L2(pv 100)`, fork tip `C` on `A` with the same cumulative
